@@ -16,7 +16,7 @@ META = {
             "an independent mpmath tree evaluator at 5 generic points (x>0, real non-zero parameters) wherever every intermediate value of the "
             "tree is finite. ",
     "note": "Bounded; oracle = /verif/harness/oracle.py tree_eval (ESR semantics: pow/sqrt/log on absolute values), expression evaluation by a guarded mpmath walk of the parsed sympy tree. A-sympy: sympify parses what it is given.",
-    "technique": "contract-based deductive verification of the tree printer (structural induction, AST->VC->SMT) + symbol-table obligations + bounded stand-in on generated libraries",
+    "technique": "contract-based deductive verification of the tree printer (structural induction), of the writers, of the canonicalisation region of duplicate_checker.main and of the elementwise loop of initial_sympify (AST->VC->SMT) + symbol-table obligations + bounded stand-in on generated libraries",
 }
 CHECKER = "./bin/check C02"
 
